@@ -458,7 +458,20 @@ func writeFiles(dir string, files map[string]string) error {
 			return err
 		}
 		c := files[p]
-		os.Remove(full)
+		// Half of the files (chosen by name) are rewritten in place when they already exist, as `echo >> f` or an
+		// editor without atomic save does: the inode - which filegroup outputs hard-link to - is kept. The others
+		// are replaced by a new file.
+		inPlace := false
+		if fi, err := os.Lstat(full); err == nil && fi.Mode().IsRegular() && !strings.HasPrefix(c, "->") {
+			sum := 0
+			for _, b := range []byte(p) {
+				sum += int(b)
+			}
+			inPlace = sum%2 == 0
+		}
+		if !inPlace {
+			os.Remove(full)
+		}
 		if strings.HasPrefix(c, "->") {
 			if err := os.Symlink(c[2:], full); err != nil {
 				return err
